@@ -7,6 +7,9 @@ package main
 import (
 	"encoding/json"
 	"fmt"
+	"os"
+	"os/exec"
+	"path/filepath"
 	"strings"
 
 	"harness/engine"
@@ -238,6 +241,7 @@ func init() {
 		Post: func(tier string, total *engine.JobResult) {
 			// number of executions that deviate from the canonical schedule
 			total.Nontrivial = total.Evals - len(get(tier))
+			c12RacePass(total)
 			// binding: the schedule-independent observation must equal what the real binary prints
 			// for every --threads value
 			for i := range get(tier) {
@@ -262,4 +266,40 @@ func init() {
 			}
 		},
 	})
+}
+
+// c12RacePass runs the scenario bodies free-running under the Go race detector (threads 1..16,
+// several GOMAXPROCS). A report is a violation; silence is an assumption of the scheduler runs.
+func c12RacePass(total *engine.JobResult) {
+	bin := filepath.Join(os.Getenv("VERIF_BUILD"), "vcheck_race")
+	if _, err := os.Stat(bin); err != nil {
+		total.Notes = append(total.Notes, "race pass skipped: no -race harness build")
+		return
+	}
+	runs := 0
+	for _, gmp := range []string{"1", "2", "4", "16"} {
+		cmd := exec.Command(bin, "racepass")
+		cmd.Env = append(os.Environ(), "GOMAXPROCS="+gmp, "GORACE=exitcode=66 halt_on_error=1")
+		out, err := cmd.CombinedOutput()
+		if err != nil {
+			if strings.Contains(string(out), "WARNING: DATA RACE") {
+				s := string(out)
+				if i := strings.Index(s, "WARNING: DATA RACE"); i >= 0 {
+					s = s[i:]
+				}
+				if len(s) > 3000 {
+					s = s[:3000]
+				}
+				total.Violate("data-race", "the Go race detector reported a race in a free-running run (GOMAXPROCS="+gmp+"): "+s, map[string]string{"gomaxprocs": gmp, "report": s})
+				return
+			}
+			engine.EngineError("race pass failed: %v: %.500s", err, out)
+		}
+		var n int
+		if i := strings.Index(string(out), "racepass runs="); i >= 0 {
+			fmt.Sscanf(string(out)[i:], "racepass runs=%d", &n)
+		}
+		runs += n
+	}
+	total.Count("race_pass_free_running_runs", runs)
 }
